@@ -395,3 +395,43 @@ pub mod fcow {
         v_sum(v).map_err(|e| e.code)
     }
 }
+
+/// custom functions for `Vec<u8>`
+pub mod fbytes {
+    use super::CustomErr;
+    /// idempotent
+    pub fn s_sort(mut v: Vec<u8>) -> Vec<u8> {
+        v.sort();
+        v
+    }
+    /// idempotent
+    pub fn s_take3(mut v: Vec<u8>) -> Vec<u8> {
+        v.truncate(3);
+        v
+    }
+    /// not idempotent
+    pub fn s_push0(mut v: Vec<u8>) -> Vec<u8> {
+        v.push(0);
+        v
+    }
+    pub fn p_nonempty(v: &Vec<u8>) -> bool {
+        !v.is_empty()
+    }
+    pub fn p_short(v: &Vec<u8>) -> bool {
+        v.len() <= 3
+    }
+    pub fn p_utf8(v: &Vec<u8>) -> bool {
+        std::str::from_utf8(v).is_ok()
+    }
+    pub fn v_sum(v: &Vec<u8>) -> Result<(), CustomErr> {
+        let s: i64 = v.iter().map(|x| *x as i64).sum();
+        if s > 300 {
+            Err(CustomErr { code: s })
+        } else {
+            Ok(())
+        }
+    }
+    pub fn m_v_sum(v: &Vec<u8>) -> Result<(), i64> {
+        v_sum(v).map_err(|e| e.code)
+    }
+}
